@@ -6,6 +6,8 @@ ID = "C18"
 ENGINE = "trainsim"
 LEVEL = "fault_enumeration"
 EXPECTED_S_PER_RUN = 4.0
+CHUNKING = "contiguous"  # the 72/144 faults of one program share compiled loops (fault position is optimizer *state*)
+MAX_CHUNK = 48
 
 N_IT = {"quick": 6, "thorough": 12}
 ORIGINS = ["update-nn", "update-eq", "grad-nn", "grad-eq", "loss-data", "loss-domain"]
